@@ -48,9 +48,10 @@ func cmdUnit(args []string) {
 	fs := flag.NewFlagSet("unit", flag.ExitOnError)
 	pkg := fs.String("pkg", "cmd/swagger/commands/diff", "package (module-relative)")
 	fun := fs.String("func", "", "comma-separated contract keys / lemma names (empty: all)")
-	timeout := fs.Int("t", 10, "solver timeout (s)")
+	timeout := fs.Int("t", 25, "solver timeout (s)")
 	keep := fs.Bool("keep", false, "keep SMT files")
 	verbose := fs.Bool("v", false, "verbose")
+	doReplay := fs.Bool("replay", false, "replay failing obligations on the real code")
 	fs.Parse(args)
 	t0 := time.Now()
 	e, err := Load([]string{*pkg}, "/verif/ghost", nil)
@@ -152,7 +153,11 @@ func cmdUnit(args []string) {
 				if *keep {
 					fmt.Printf("        script: %s\n", o.Result.Script)
 				}
-				if os.Getenv("GOCV_DEBUG_MODEL") != "" && o.Result.Status == "sat" {
+				if *doReplay {
+					os.MkdirAll("/verif/out/debug/replay", 0o755)
+					rp, ok := replayObligation(e, o, "/verif/out/debug", work)
+					fmt.Printf("        replay: reproduced=%v %s\n", ok, rp)
+				} else if os.Getenv("GOCV_DEBUG_MODEL") != "" {
 					rp, _ := replayObligation(e, o, "/verif/out/debug", work)
 					fmt.Printf("        model dump: %s\n", rp)
 				}
